@@ -160,6 +160,7 @@ func (w *world) hook(ev mangos.PipeEvent, p mangos.Pipe) {
 			kit.Failf("id-freed-before-detached-returned", "pipe id %08x was released before the Detached callback returned", st.id)
 		}
 		kit.Count("detached")
+		_ = p.Close() // legal: Close is idempotent, also from within the Detached callback
 		// the callback "returns" only after this point: another thread may not get the id before
 		kit.Yield()
 		st.detachDone = true
@@ -532,3 +533,8 @@ func tcpAborted() {
 var RaceBodies = map[string]func(){
 	"c13-attach-vs-drop": schedAttachDrop,
 }
+
+
+// TCPAborted is also run under C14: a dialer whose server hangs up during the handshake (at any
+// byte, cleanly or by reset, or with a bad header) keeps redialling and attaches to the next peer.
+func TCPAborted() { tcpAborted() }
